@@ -230,13 +230,19 @@ def fused_pair(insig, out):
 _LOADED = {}
 
 
-def run_one(prog, src, config, res, fam, light=False):
+def run_one(prog, src, config, res, fam, light=False, chunked=False):
     res.evaluations += 1
     case = {'src': src, 'config': config, 'family': fam}
     try:
         pre = _LOADED.get('obj') if _LOADED.get('src') == src else None
-        obj, out = minify(src, config, res, obj=pre)
-        _LOADED['src'], _LOADED['obj'] = src, obj
+        chunks = None
+        if chunked:
+            parts = src.split(b'\n')
+            chunks = [p_ + b'\n' for p_ in parts[:-1]] + ([parts[-1]] if parts[-1] else [])
+            pre = None
+        obj, out = minify(src, config, res, chunks=chunks, obj=pre)
+        if not chunked:
+            _LOADED['src'], _LOADED['obj'] = src, obj
     except Exception as e:
         if prog is not None and c08.has_qprint(prog.skeleton):
             res.violation('C01|qprint|load-raises', 'luamin cannot load the valid program %r (? print inside a block): %r' % (
@@ -345,7 +351,7 @@ def run_shard(item):
                 cfgs = CONFIGS if (desc in ('default', 'tight', 'pair-gap') and fam not in ('local', 'chain')) else \
                     [CONFIGS[(j + len(prog.toks)) % 3]]
                 for cfg in cfgs:
-                    run_one(prog, src, cfg, res, fam, light=(desc == 'dev1'))
+                    run_one(prog, src, cfg, res, fam, light=(desc == 'dev1'), chunked=(desc in ('lines', 'token-per-line')))
             if fam == 'pairs':
                 res.cover('adj_pairs_minified', prog.pair)
             if k == 0 and len(res.samples) < 1:
